@@ -10,7 +10,7 @@ CONSTANTS
   PAIRS = FALSE
   PATLEN = 2
   INLEN = 3
-  ELEMKINDS = {"v", "u", "k", "c", "l2", "le", "lbe", "ld", "lde"}
-  INKINDS = {"1", "k", "7", "l2", "ll", "d3"}
+  ELEMKINDS = {"v", "u", "k", "l2", "le", "lbe", "ld", "lde"}
+  INKINDS = {"1", "k", "l2", "ll", "d3"}
 INVARIANTS InDomain SynErrSilent GlobalsSuffixed HEmit
 CHECK_DEADLOCK FALSE
